@@ -194,8 +194,9 @@ PROPS = {
         lean_modules=["Gowarc.Props.C04", "Gowarc.Props.C04junk"],
         audit_namespaces=["Gowarc.Props.C04"],
         n_quick=1500, n_thorough=12000,
-        required_theorems=["C04_inv", "C04_tracked_size", "C04_offset", "C04_offset_stable", "C04_sequential", "C04_junk", "core_frame", "unmarshal_eq_core", "step_grows", "write_inv", "close_inv"],
-        model_assumptions=["member bytes (the marshaler's and the compressor's output) are data: the harness measures each member's length on disk and hands it to the model; everything the writer decides is modelled",
+        required_theorems=["C04_inv", "C04_tracked_size", "C04_offset", "C04_offset_stable", "C04_sequential", "C04_junk", "core_frame", "unmarshal_eq_core", "step_grows", "write_inv", "close_inv", "writeFailed_inv", "writeFailed_eq"],
+        model_assumptions=["write histories include records the marshaler fails on (op `failed`: the fit test and a file creation happen, nothing of the record stays in the file); the harness makes the marshaler fail before the first byte, inside the header, inside the block and after the whole record",
+                           "member bytes (the marshaler's and the compressor's output) are data: the harness measures each member's length on disk and hands it to the model; everything the writer decides is modelled",
                            "C04_sequential is stated for any self-delimiting codec (dec (enc x ++ rest) = some (x, rest)); that gowarc's marshal/gzip and unmarshal form such a codec is checked by the read-back oracle (independent scanner, fresh reader at every offset, sequential reader under three source behaviours), not proved",
                            "one worker (deterministic); n workers are C09; segmentation (continuation records) is C10",
                            "the float multiplication by the expected compression ratio is the parameter `scale`; the harness uses ratios that are exact in binary"],
